@@ -87,9 +87,29 @@ func richDocForm(version string, mk func(loc string) string, sig bool, form stri
 	// deliberately deletes /PieceInfo, so that is not used)
 	sdict := d.AddStream(fmt.Sprintf("/VerifNote %s /VerifList [(in-stream-dict) << /K (v) >>]", S("streamdict")), []byte("stream with strings in its dictionary"))
 	empty := d.AddStream("", nil)
-	priv := d.Add(fmt.Sprintf("<< /A [ %s [ (level two \\(with parens\\) \\\\ and \\101 octal) << /K %s /E () /H <> /Bin (\\000\\001\\377\\376) >> ] ] "+
+	// block-boundary classes for the block ciphers: strings and (unfiltered and Flate-coded) streams of 0, 1, 15, 16, 17,
+	// 31, 32, 33, 48 bytes ending in 0x01, LF, CR, 0x10 (the values a PKCS#7 pad byte can take) or a letter
+	var blockStrs, blockStreams []string
+	for _, n := range []int{0, 1, 15, 16, 17, 31, 32, 33, 48} {
+		for _, last := range []byte{0x01, 0x0a, 0x0d, 0x10, 'z'} {
+			if n == 0 && last != 'z' {
+				continue
+			}
+			data := blockData(n, last)
+			blockStrs = append(blockStrs, "<"+hex.EncodeToString(data)+">")
+			if n == 16 || n == 32 {
+				blockStrs = append(blockStrs, "("+escapeLiteral(data)+")")
+			}
+			blockStreams = append(blockStreams, fmt.Sprintf("%d 0 R", d.AddStream("", data)))
+			if n == 16 || n == 33 {
+				blockStreams = append(blockStreams, fmt.Sprintf("%d 0 R", d.AddStream("/Filter /FlateDecode", zlibBytes(data))))
+			}
+		}
+	}
+	blocks := d.Add(fmt.Sprintf("<< /Strings [%s] /Streams [%s] >>", strings.Join(blockStrs, " "), strings.Join(blockStreams, " ")))
+	priv := d.Add(fmt.Sprintf("<< /Blocks %d 0 R /A [ %s [ (level two \\(with parens\\) \\\\ and \\101 octal) << /K %s /E () /H <> /Bin (\\000\\001\\377\\376) >> ] ] "+
 		"/D << /D2 << /S (deep string) /Hex <%s> /U16 <FEFF00500044004600E4> >> >> /Streams [%d 0 R %d 0 R] >>",
-		S("nested"), S("nested"), hex.EncodeToString([]byte(mk("hexstr"))), sdict, empty))
+		blocks, S("nested"), S("nested"), hex.EncodeToString([]byte(mk("hexstr"))), sdict, empty))
 	annot := d.Add(fmt.Sprintf("<< /Type /Annot /Subtype /Text /Rect [10 10 40 40] /Contents %s /T (verif) /NM (a1) /P %d 0 R /VERIF:Extras %d 0 R >>", S("annot"), page1, priv))
 	field := d.Add(fmt.Sprintf("<< /Type /Annot /Subtype /Widget /FT /Tx /T (f1) /TU (tooltip) /V %s /DV %s /DA (/Helv 12 Tf 0 g) /Rect [50 50 250 80] /P %d 0 R >>",
 		S("form"), S("form"), page1))
@@ -128,6 +148,29 @@ func richDocForm(version string, mk func(loc string) string, sig bool, form stri
 		d.Info = d.Add("<< /CreationDate (D:20240101000000Z) >>")
 	}
 	return d
+}
+
+// blockData is n bytes of text ending in the byte last.
+func blockData(n int, last byte) []byte {
+	if n == 0 {
+		return nil
+	}
+	b := []byte(strings.Repeat("block-data-0123456789-", 4)[:n])
+	b[n-1] = last
+	return b
+}
+
+// escapeLiteral writes bytes as the body of a PDF literal string (octal escapes for everything unusual).
+func escapeLiteral(data []byte) string {
+	var b strings.Builder
+	for _, c := range data {
+		if c < 0x20 || c > 0x7e || c == '(' || c == ')' || c == '\\' {
+			fmt.Fprintf(&b, "\\%03o", c)
+		} else {
+			b.WriteByte(c)
+		}
+	}
+	return b.String()
 }
 
 func fixedMarker(loc string) string { return "marker-" + loc }
